@@ -213,16 +213,22 @@ fn process_proactive_filling(core: &mut Core, mapping: &mut WorkerTaskMapping) {
             continue;
         }
         for worker in workers {
-            let tasks = queue.take_tasks_for_prefill(prefill_size);
-            for task_id in &tasks {
-                log::debug!("Prefiling task={task_id} to worker={}", worker.id);
+            let mut tasks = queue.take_tasks_for_prefill(prefill_size);
+            tasks.retain(|task_id| {
                 let task = task_map.get_task_mut(*task_id);
-                assert!(task.is_waiting());
+                if !task.is_waiting() {
+                    // A retracting task waits in the queue for its new target,
+                    // it cannot be pre-sent before the retraction is resolved
+                    queue.move_prefilled_task_to_ready(*task_id);
+                    return false;
+                }
+                log::debug!("Prefiling task={task_id} to worker={}", worker.id);
                 task.state = TaskRuntimeState::Prefilled {
                     worker_id: worker.id,
                 };
                 worker.insert_prefill_task(*task_id);
-            }
+                true
+            });
             mapping
                 .workers
                 .entry(worker.id)
